@@ -60,6 +60,7 @@ type Stats struct {
 	MaxDecisions   int
 	Steps          int64
 	InitTime       time.Duration
+	Concretised    int // symbolic sizes above the exhaustively forked range, represented by their two extremes
 	SolverQueries  int
 	SolverTime     time.Duration
 	SolverUnknown  int
